@@ -55,7 +55,7 @@ def recipe(c: Check):
             c.failures.append(dict(key="monitor:%s" % d, driver=d, what="C05_holds is false on %d observed case(s) of driver %s" % (ks["NMONITORFAIL"], d),
                                    case="see cases_%s_*.v in work/C05" % d))
     # sanity: the branches the property names must have been reached, else the run proves nothing
-    need = dict(sniff=dict(NSYSTLS=4, NSYSPROTO=1, NFNREJECT=254), policy=dict(NREQUIRE=1, NVERIFY=1),
+    need = dict(sniff=dict(NSYSTLS=4, NSYSPROTO=1, NFNREJECT=254, NWSTLS=4, NWSPROTO=1, NKCPTLS=4, NKCPPROTO=1), policy=dict(NREQUIRE=1, NVERIFY=1),
                 wire=dict(NCLEARPAYLOAD=2, NHIDDENALL=2, NREJECTED=1, NEMPTYTOKEN=2), certs=dict(NREFUSED=3, NACCEPTED=2))
     if c.harness_ok and not any(b["kind"] in ("driver", "correspondence-eval") for b in c.broken):
         for d, ks in need.items():
@@ -65,7 +65,8 @@ def recipe(c: Check):
                                          detail="driver %s reached branch %s only %d times (needs >= %d)" % (d, k, cc.get(d, {}).get(k, 0), v)))
     return c.finish(
         rule="sniff: all 256 first bytes x force on/off through the real CheckAndEnableTLSServerConnWithTimeout (isTLS, custom, error, "
-             "byte replayed/consumed by a real handshake or read-back) and against a running frps (answer class); policy: exhaustive "
+             "byte replayed/consumed by a real handshake or read-back) and against a running frps (answer class) on its tcp listener, through its websocket listener (raw websocket client) and its kcp "
+             "listener; policy: exhaustive "
              "7 cert/key choices x 4 CA choices x force / 3 server names through the real Complete + NewServerTLSConfig / NewClientTLSConfig "
              "on harness-generated PKI files, 6 protocols x 27 option settings through ClientTransportConfig.Complete; wire: per "
              "configuration of the lattice one real frpc (tcp + http + stcp proxy, stcp visitor) against one frps through a recording "
